@@ -19,6 +19,7 @@ import (
 // scen describes one closed concurrent harness around a real Store.
 type scen struct {
 	Name     string
+	Thorough bool // explored in the thorough tier only
 	Declared []string
 	Service  []string         // names that exist on the service (default: Declared + names used)
 	Initial  map[string]cInit // start-up cache entries
